@@ -194,6 +194,8 @@ def run_case(case, tier, seed):
             continue
         path_model = s.model() if r == z3.sat else None
         # encoding validation: concrete sample lying on this path
+        underdetermined = any(v.split('!')[0] in ('cosd', 'exp', 'log', 'cos', 'sin', 'csqrt_re', 'csqrt_im')
+                              for ax in p.axioms for v in sym.term_vars(ax))
         for CE in conc_runs:
             sv = z3.Solver()
             sv.add(*p.assumptions); sv.add(*p.axioms); sv.add(*p.pc)
@@ -212,6 +214,8 @@ def run_case(case, tier, seed):
             for cl in E.claims:
                 if cl.kind != 'eq' or _base(cl.name) not in cvals:
                     continue
+                if underdetermined:
+                    continue      # under-determined stub values: the model need not pick the true function value
                 ca = cvals[_base(cl.name)]
                 try:
                     if isinstance(ca, str):
@@ -463,7 +467,14 @@ def finish(pid, tier, seed, mod, results, wall):
     findings = load_findings()
     meta = getattr(mod, 'META', {})
     tot = lambda k: sum(r.get(k, 0) for r in results)  # noqa: E731
-    violations = [v for r in results for v in r['violations']]
+    violations = []
+    _seen = set()
+    for r in results:
+        for v in r['violations']:
+            k = (v['case'], v['claim'])
+            if k not in _seen:
+                _seen.add(k)
+                violations.append(v)
     known, new = [], []
     for v in violations:
         f = match_finding(pid, v, findings)
